@@ -15,8 +15,9 @@ CONSTANTS
   B5 = 0
   MaxChain = 3
   FnOwn = 1
+  BFn = 4
   EmitAllUpTo = 1
-  Sel = 20
+  Sel = 40
   KeepGoing = TRUE
 INVARIANT Inv
 CHECK_DEADLOCK FALSE
